@@ -776,7 +776,11 @@ bool World::init()
     unsetenv("HOSTALIASES");
   unsetenv("LOCALDOMAIN");
   unsetenv("RES_OPTIONS");
-  unsetenv("CARES_HOSTS");
+  if (!cfg->env_hosts.empty()) {
+    vfs()["/vfs/hosts.env"] = cfg->env_hosts;
+    setenv("CARES_HOSTS", "/vfs/hosts.env", 1);
+  } else
+    unsetenv("CARES_HOSTS");
   if (ares_library_init_mem(ARES_LIB_INIT_ALL, vf::l_malloc, vf::l_free, vf::l_realloc) != ARES_SUCCESS) return false;
   struct ares_options o;
   memset(&o, 0, sizeof o);
